@@ -215,8 +215,6 @@ def strip_exc(tr: list[Any]) -> list[Any]:
 
 
 def part_a(ctx: Ctx, call: Any, ci: int) -> None:
-    from vf.kit import prog
-
     mx = max(batch_sizes(call))
     for kind in ("http", "mem"):
         w = World(kind, None, None)
@@ -616,9 +614,8 @@ def run(ctx: Ctx) -> None:
                     continue
                 if comp == "gzip" and ctx.quick:
                     continue
-                if kind == "mem" and (comp is not None or ctx.quick):
-                    if not (ctx.thorough and comp is None):
-                        continue
+                if kind == "mem" and (comp is not None or (ctx.quick and call.method != "unary")):
+                    continue  # pipe-style transport: uncompressed objects only; quick tier: the unary result object only
                 part_c(ctx, call, kind, comp)
     if ctx.mine():
         part_d(ctx)
